@@ -119,7 +119,8 @@ def run(run, binfo):
     # ---- payload: both encodings, nested targets, opaque objects, target left unmodified
     from oslo_policy import policy
     world.register_custom()
-    targets = [{}, {'name': 'n'}, {'name': 'n', 'nested': {'a': [1, {'b': None}], 'c': 2.5}},
+    targets = [{}, {'name': 'n'}, {'name': 'n', 'network:tenant_id': 't-1', 'project.id': 'p.1', 'os-ext:zone': 'z'},
+               {'name': 'n', 'nested': {'a': [1, {'b': None}], 'c': 2.5}},
                {'name': 'n', 'obj': object(), 'other': [1, 2]}, {'name': 'n', 'o1': object(), 'o2': object(), 'k': 'v'}]
     credss = [{}, {'roles': ['a', 'b'], 'user_id': 'u'}, {'roles': [], 'nested': {'x': [1, 2]}},
               # credentials that happen to carry the key the URL reads from the TARGET
@@ -127,6 +128,8 @@ def run(run, binfo):
     preqs, pinfo = [], []
     for t, cr, form, depth in itertools.product(targets, credss, (True, False), (0, 1, 2)):
         text = 'http://host/path/%(name)s' if 'name' in t else 'http://host/path'
+        if 'network:tenant_id' in t:
+            text = 'http://host/path/%(name)s/%(network:tenant_id)s/%(project.id)s/%(os-ext:zone)s'
         for _ in range(depth):
             text = 'role:zz or (%s)' % text
         e = make_enforcer(form)
@@ -165,6 +168,8 @@ def run(run, binfo):
     for (t, cr, form, name, sent, enc_ok, url, res), ans in zip(pinfo, run_batch(preqs)):
         want = {'rule': from_wire_jv(ans[1]), 'target': from_wire_jv(ans[2]), 'credentials': from_wire_jv(ans[3])}
         want_url = 'http://host/path/' + t['name'] if 'name' in t else 'http://host/path'
+        if 'network:tenant_id' in t:
+            want_url += '/t-1/p.1/z'
         if sent != want or not enc_ok or bool(ans[0]) != form or url != want_url or not res:
             run.violation('payload', 'request for target %r creds %r form=%r: sent %r to %r, model/documented %r to %r'
                           % (t, cr, form, sent, url, want, want_url),
